@@ -245,6 +245,8 @@ def main():
         tags = set(tags)
         if tags & set(rule.get('exclude_tags', [])):
             return False
+        if not is_violation and rule.get('disagreement_tags') and not tags & set(rule['disagreement_tags']):
+            return False
         if is_violation:
             if rule.get('violation_require') and not set(rule['violation_require']) <= tags:
                 return False
